@@ -67,14 +67,41 @@ fn confusables() -> &'static Vec<&'static str> {
     })
 }
 
+/// Long identifiers: valid ones, and ones whose single invalid character sits just before / at / after a typical
+/// chunk or buffer boundary (8, 16, 32, 64, 128, 256, 1024 bytes) - a validator that looks at a prefix, or that works
+/// on fixed-size chunks, goes wrong exactly there. (valid, invalid)
+fn long_parts() -> &'static (Vec<&'static str>, Vec<&'static str>) {
+    static P: std::sync::OnceLock<(Vec<&'static str>, Vec<&'static str>)> = std::sync::OnceLock::new();
+    P.get_or_init(|| {
+        let mut good: Vec<&'static str> = vec![];
+        let mut bad: Vec<&'static str> = vec![];
+        for n in [7usize, 8, 9, 15, 16, 17, 31, 32, 33, 63, 64, 65, 127, 128, 129, 255, 256, 257, 1023, 1024, 1025] {
+            good.push(Box::leak(format!("{}z", "a".repeat(n)).into_boxed_str()));
+            for c in ["-", "é", " ", "\u{212a}"] {
+                bad.push(Box::leak(format!("{}{}", "a".repeat(n), c).into_boxed_str()));
+                bad.push(Box::leak(format!("{}{}b", "a".repeat(n), c).into_boxed_str()));
+            }
+        }
+        (good, bad)
+    })
+}
+
 fn gen_part(src: &mut Src, good: &[&'static str], bad: &[&'static str], p_bad: u32) -> &'static str {
     if src.chance(p_bad) {
         if src.chance(48) {
             let c = confusables();
             return c[src.below(c.len())];
         }
+        if src.chance(24) {
+            let l = &long_parts().1;
+            return l[src.below(l.len())];
+        }
         *src.pick(bad)
     } else {
+        if src.chance(10) {
+            let l = &long_parts().0;
+            return l[src.below(l.len())];
+        }
         *src.pick(good)
     }
 }
